@@ -178,7 +178,12 @@ def _job(job):
     rep, perr = replay_dates(actions, progs, lo, hi, np_)
     if perr:
         return {"complete": True, "bad": [], "err": perr, "lo": lo, "hi": hi}
-    return {"complete": True, "bad": compare(online, rep, progs, lo, hi, np_), "err": None, "lo": lo, "hi": hi}
+    skewed = 0   # programs in which the ranks do not all spend the same time: who does what matters for the dates
+    for idx in range(lo, hi):
+        ds = [online[(idx, r)][0] - (online[(idx - 1, r)][1] if idx > lo else 0.0) for r in range(np_)]
+        if max(ds) - min(ds) > 1e-6:
+            skewed += 1
+    return {"complete": True, "bad": compare(online, rep, progs, lo, hi, np_), "err": None, "lo": lo, "hi": hi, "skewed": skewed}
 
 
 def _kind_of(prog, what):
@@ -237,6 +242,7 @@ def run(ctx):
                     common.log("C37: bound %s not completed before the deadline: discarded" % bid)
                     continue
                 nbad = 0
+                tot["nontrivial"] += sum(r.get("skewed", 0) for r in res)
                 for r in res:
                     if r["err"]:
                         # a run that dies is located by bisection below: treat the whole chunk as one failing case
@@ -299,17 +305,17 @@ def run(ctx):
     finally:
         mpix.cleanup(tmp)
 
-    nontrivial = tot["programs"]
-    if tot["programs"] < 2:
+    nontrivial = tot["nontrivial"]
+    if tot["nontrivial"] < 2:
         common.log("C37: vacuous run")
         sys.exit(2)
     coverage = {
         "evaluations": tot["programs"],
         "distinct_nontrivial": nontrivial,
-        "rule": "a case = one program (list of <=3 steps) x np, run online with TI tracing and replayed; every program is distinct "
-                "(odometer over the step alphabet) and non-trivial in the sense of the property: each contains at least one traced "
-                "communication whose simulated duration is > 1 ms on the platform used, so a wrong replay moves a date by far "
-                "more than the tolerance; dates compared = 2 per program and rank",
+        "rule": "a case = one program (list of <=3 steps) x np, run online with TI tracing and replayed; programs are distinct by "
+                "construction (odometer over the step alphabet); non-trivial = programs in which, online, the ranks do not all "
+                "spend the same time (measured, > 1 us apart): the dates depend on who sends/roots what, so a replay that gets a "
+                "partner, root, size or request wrong moves them; every program contains a communication of > 1 ms",
         "samples": samples,
         "exhaustive": exhaustive,
         "bounds_completed": done,
